@@ -11,16 +11,16 @@ import (
 // stack, of the distances the S1 rules need (all lower bounds, saturating), of
 // whether core has a current directive, and of a pending same-byte redispatch.
 type Ctrl struct {
-	Open  int8 // index into Machine.beginIdx (+1); 0 = no open lexeme
-	D     int8 // curIndex - begin position of the open lexeme (lower bound, -3..Sat)
-	Cons  int8 // lower bound on curIndex (0..Sat)
-	Gap   int8 // curIndex - end position of the last closed lexeme (lower bound, 0..Sat)
-	Dir   int8 // 0: core has no current directive; 1: it has; 2: INCLUDE keyword seen, its file name parameter pending
-	Pend  int16 // byte class that must be re-dispatched to the current step, or -1
-	Ended bool // the EOF symbol has been consumed
-	AtEOF bool // the open lexeme began on the end-of-input symbol itself (it spans no byte)
-	AfterNL bool // the last consumed byte was a line end read with no lexeme open (start of a line)
-	NoEOF bool // the next symbol cannot be end of input (the read position was just moved back onto a consumed byte)
+	Open    int8  // index into Machine.beginIdx (+1); 0 = no open lexeme
+	D       int8  // curIndex - begin position of the open lexeme (lower bound, -3..Sat)
+	Cons    int8  // lower bound on curIndex (0..Sat)
+	Gap     int8  // curIndex - end position of the last closed lexeme (lower bound, 0..Sat)
+	Dir     int8  // 0: core has no current directive; 1: it has; 2: INCLUDE keyword seen, its file name parameter pending
+	Pend    int16 // byte class that must be re-dispatched to the current step, or -1
+	Ended   bool  // the EOF symbol has been consumed
+	AtEOF   bool  // the open lexeme began on the end-of-input symbol itself (it spans no byte)
+	AfterNL bool  // the last consumed byte was a line end read with no lexeme open (start of a line)
+	NoEOF   bool  // the next symbol cannot be end of input (the read position was just moved back onto a consumed byte)
 }
 
 // Sat is the saturation bound of the distance counters.
@@ -54,10 +54,10 @@ type Result struct {
 	Rules         int // pushdown rules generated
 	Classes       int
 	ReachStates   map[int]bool
-	NoDirLexemes  map[string]bool   // lexeme kinds completed while core has no current directive
+	NoDirLexemes  map[string]bool      // lexeme kinds completed while core has no current directive
 	PopTargets    map[int]map[int]bool // state that pops -> states it may resume
-	UnderComment  map[int]bool      // states that may be resumed by the comment sub-machine
-	EOFOpen       map[string]string // event kind open when EOF is consumed -> witness
+	UnderComment  map[int]bool         // states that may be resumed by the comment sub-machine
+	EOFOpen       map[string]string    // event kind open when EOF is consumed -> witness
 	CommentStates map[int]bool
 	KeywordAt     map[token.Pos]map[string]bool // KeywordEnd effect site -> spelled keywords
 	Keywords      map[string]bool
@@ -98,9 +98,9 @@ type analysis struct {
 	beginIdx  map[string]int8 // begin event const -> Open value
 	beginName []string
 
-	ctrls   []Ctrl
-	ctrlID  map[Ctrl]int
-	ruleMemo map[[2]int][]pdsRule
+	ctrls       []Ctrl
+	ctrlID      map[Ctrl]int
+	ruleMemo    map[[2]int][]pdsRule
 	seenFinding map[string]bool
 
 	parent map[trans]string // witness: how a transition was first derived
@@ -610,9 +610,9 @@ func (a *analysis) run() {
 	nextExtra := -2
 	midState := map[[2]int]int{} // (p', γ1) -> q
 	rel := map[trans]bool{}
-	relByQ := map[int][]trans{}    // transitions leaving automaton state q (for ε-combination)
-	epsInto := map[int][]int{}     // q -> control states p with (p, ε, q) in rel
-	epsOrigin := map[trans]int{}   // (p, ε, q) -> state whose arm popped
+	relByQ := map[int][]trans{}  // transitions leaving automaton state q (for ε-combination)
+	epsInto := map[int][]int{}   // q -> control states p with (p, ε, q) in rel
+	epsOrigin := map[trans]int{} // (p, ε, q) -> state whose arm popped
 	var work []trans
 	add := func(t trans, why string) {
 		if rel[t] {
